@@ -18,7 +18,7 @@ RULE = ("signer sets of size 1..6 (thorough: up to 32) with keys from a pool of 
         "regroup (aggregate of aggregates), drop / duplicate / substitute a signature, drop a signer's key "
         "and message, swap two messages, swap two keys, append a message or key (length mismatch whose "
         "zip-truncated prefix is valid), alter the aggregate (-A, A+S, A+T, bit flip, identity), replace a key "
-        "by the identity / a non-subgroup point / malformed bytes, empty lists, wrong-size Aggregate entries. "
+        "by the identity / a non-subgroup point / malformed bytes, a pair of keys P+T, Q-T whose torsion cancels, empty lists, wrong-size Aggregate entries. "
         "Oracle (exact, by non-degeneracy): Aggregate == canonical encoding of the model group sum for every "
         "order and grouping, ValidationError for an empty list or a wrong-size entry; AggregateVerify == [n>=1, "
         "|PKs|=|msgs|, every key valid, (basic) messages distinct, A canonical in the subgroup, decode(A) = "
@@ -32,7 +32,7 @@ ASSUMPTIONS = ["model signatures and group sums (vf/model/blssig.py, bls12381.py
 ENGINE = "hypothesis"
 PERTS = ("none", "permute", "regroup", "drop_sig", "dup_sig", "subst_sig", "drop_signer", "swap_msgs", "swap_keys",
          "extra_msg", "extra_key", "neg_agg", "agg_plus_sig", "agg_plus_torsion", "agg_bitflip", "agg_identity",
-         "key_identity", "key_non_subgroup", "key_malformed", "empty")
+         "key_identity", "key_non_subgroup", "key_cancel_pair", "key_malformed", "empty")
 _REQ = ([f"pert:{p}" for p in PERTS] +
         ["entry:AggregateVerify:basic", "entry:AggregateVerify:aug", "entry:AggregateVerify:pop",
          "entry:FastAggregateVerify", "entry:Aggregate", "want:True", "want:False", "repeated_key", "repeated_msg",
@@ -273,6 +273,20 @@ def build(t):
         pks, dlogs = list(pks), list(dlogs)
         T = bc.small_point("G1", 3, 1) if b % 3 == 0 else bc.torsion_point("G1", a % 40)
         pks[i], dlogs[i] = B.pubkey_bytes(B.g1_add(B.pubkey_point(pks[i]), T)), None
+    elif pert == "key_cancel_pair":
+        # P_i + T and P_j - T: the sum of the keys (and, outside the augmentation suite, every pairing
+        # factor) is what it would be for the valid keys - only per-key validation rejects them
+        pks, dlogs = list(pks), list(dlogs)
+        T = bc.small_point("G1", 11, 1) if b % 2 else bc.torsion_point("G1", a % 40)
+        if n >= 2 and i != j:
+            pks[i] = B.pubkey_bytes(B.g1_add(B.pubkey_point(pks[i]), T))
+            pks[j] = B.pubkey_bytes(B.g1_add(B.pubkey_point(pks[j]), BLS.neg("G1", T)))
+            dlogs[i] = dlogs[j] = None
+        else:
+            pks = pks + [B.pubkey_bytes(T), B.pubkey_bytes(BLS.neg("G1", T))]
+            dlogs = dlogs + [None, None]
+            if not fast:
+                msgs = msgs + [b"cancel-1", b"cancel-2"]
     elif pert == "key_malformed":
         pks, dlogs = list(pks), list(dlogs)
         raw = pks[i]
